@@ -53,6 +53,7 @@ MapSeq(F(_), q) == IF Len(q) = 0 THEN <<>> ELSE [i \in 1..Len(q) |-> F(q[i])]
 
 JNull      == Nd("null", "null", <<>>)
 JInt(i)    == Nd("int", ToString(i), <<>>)
+JBool(b)   == Nd("bool", IF b THEN "true" ELSE "false", <<>>)
 JStr(x)    == Nd("str", x, <<>>)
 JBytes(b)  == Nd("bytes", b, <<>>)
 JArr(q)    == Nd("arr", "", MapSeq(LAMBDA n : KV("", n), q))
@@ -65,7 +66,7 @@ Member(n, k) == (CHOOSE i \in 1..Len(n.kids) : n.kids[i].k = k)
 Get(n, k)  == n.kids[Member(n, k)].n
 
 \* the vocabulary's keys have ONE role each, whatever the model they belong to
-KeyRole(k) == CASE k \in {"tag", "lives"}  -> "opt_scalar"
+KeyRole(k) == CASE k \in {"tag", "lives", "compact", "theme"}  -> "opt_scalar"
                 [] k \in {"nums", "tricks"} -> "opt_list"
                 [] OTHER                    -> "req"
 
@@ -90,7 +91,7 @@ RawKind(n) == CASE n.t = "obj" -> "dict" [] n.t = "arr" -> "list" [] n.t = "str"
                 [] n.t = "num" -> "float" [] n.t = "bool" -> "bool" [] n.t = "bytes" -> "bytes" [] OTHER -> "none"
 
 \* "model:Thing" -> "model" (TLC has no string slicing: observations carry the class next to the kind)
-ModelKinds == {"model:Thing", "model:Other", "model:Cat", "model:Dog", "model:Bag"}
+ModelKinds == {"model:Thing", "model:Other", "model:Cat", "model:Dog", "model:Bag", "model:Prefs"}
 KindClass(pk) == IF pk \in ModelKinds THEN "model" ELSE pk
 
 \* ---------------------------------------------------------------------------------------------
@@ -107,6 +108,8 @@ OtherM(c, nt) == JObj(<<KV("code", JInt(c)), KV("note", JStr(nt))>>)
 \* Pick = oneOf [Cat, Dog]; Cat: lives (int, optional), meow (str, required); Dog: bark (str, required), tricks (array of str, optional)
 Cat(lives, m) == JObj(Opt("lives", lives, JInt) \o <<KV("meow", JStr(m))>>)
 Dog(b, tricks) == JObj(<<KV("bark", JStr(b))>> \o Opt("tricks", tricks, StrArr))
+\* Prefs: nullable object, compact (bool, optional), theme (str, optional) - {} conforms
+Prefs(compact, theme) == JObj(Opt("compact", compact, JBool) \o Opt("theme", theme, JStr))
 \* Bag = additionalProperties: integer
 Bag(kvs) == JObj(MapSeq(LAMBDA p : KV(p[1], JInt(p[2])), kvs))
 
@@ -126,14 +129,20 @@ ThingSeqs(level) ==
 Picks(level) == {Cat(<<3>>, "m"), Cat(<<>>, "n"), Dog("w", << <<"x", "y">> >>), Dog("v", <<>>)}
                   \cup (IF level <= 1 THEN {} ELSE {Cat(<<9>>, "n"), Dog("v", << <<>> >>)})
 Bags(level)  == {Bag(<<>>), Bag(<< <<"k1", 1>> >>), Bag(<< <<"k1", 1>>, <<"k2", 2>> >>), Bag(<< <<"k1", 2>> >>)}
-Ints(level)  == {JInt(1), JInt(2)} \cup (IF level <= 1 THEN {} ELSE {JInt(0)})
-Strs(level)  == {JStr("a"), JStr("b")} \cup (IF level <= 1 THEN {} ELSE {JStr("")})
+\* (falsy but present values - 0, "", false, [], {} - are conforming bodies like any other)
+Ints(level)  == {JInt(1), JInt(2), JInt(0)}
+Strs(level)  == {JStr("a"), JStr("b"), JStr("")}
+\* MaybeThings = nullable array of Thing; Prefs = nullable object whose members are all optional
+NullArrs(level) == {JNull, JArr(<<>>), JArr(<<T1>>), JArr(<<T2, T1>>)}
+NullObjs(level) == {JNull, Prefs(<<>>, <<>>), Prefs(<<TRUE>>, <<"x">>), Prefs(<<FALSE>>, <<>>), Prefs(<<>>, <<"">>)}
 \* text bodies: one that is not JSON, one that also parses as JSON (the integer 7)
 Texts(level) == {JStr("hello world"), JStr("7")} \cup (IF level <= 1 THEN {} ELSE {JStr("{\"id\": 1}")})
 \* octet chunks, base64, every chunk 3k bytes long so that concatenating the base64 texts concatenates the octets
 ChunkSeqs(level) == {<<>>, <<"YWJj">>, <<"YWIA", "/2Nk">>, <<"/2Nk", "YWIA">>} \cup (IF level <= 1 THEN {} ELSE {<<"YWIA", "YWIA", "/2Nk">>})
 
 JsonShapes == {"object", "array", "primalias", "arralias", "union", "map", "prim", "str"}
+\* further shapes, as the only content (nullobj also as the JSON alternative of a multi-content response)
+MoreJsonShapes == {"nullarr", "nullobj", "bool"}
 TextShapes == {"str", "primalias"}
 
 JsonInstances(sh, level) ==
@@ -145,6 +154,9 @@ JsonInstances(sh, level) ==
     [] sh = "union"     -> Picks(level)
     [] sh = "map"       -> Bags(level)
     [] sh = "prim"      -> Ints(level)
+    [] sh = "bool"      -> {JBool(TRUE), JBool(FALSE)}
+    [] sh = "nullarr"   -> NullArrs(level)
+    [] sh = "nullobj"   -> NullObjs(level)
     [] sh = "other"     -> {OtherM(5, "x"), OtherM(6, "y")}
 
 \* a BODY is what the fake server sends for one call: [ct : served content kind, var : how the Content-Type header is
@@ -164,19 +176,27 @@ Bodies(c, sh, level) ==
     [] c = "json"      -> JsonBodies(sh, level, {"exact"})
     [] c = "text"      -> TextBodies(level, {"exact"})
     [] c = "octet"     -> {BodyRec("octet", "exact", NoTree, MapSeq(JBytes, q), "whole") : q \in ChunkSeqs(level)}
+    \* "multiline": every event's JSON payload is pretty-printed over several `data:` lines (joined with LF by a reader)
     [] c = "sse"       -> {BodyRec("sse", "exact", NoTree, q, ch) : q \in ThingSeqs(level), ch \in {"whole", "split"}}
+                          \cup {BodyRec("sse", "exact", NoTree, q, "multiline") : q \in IF level <= 1 THEN {<<T1>>, <<T2, T1>>} ELSE ThingSeqs(1) \ {<<>>}}
     [] c = "ndjson"    -> {BodyRec("ndjson", "exact", NoTree, q, ch) : q \in ThingSeqs(level), ch \in {"whole", "split"}}
-    [] c = "json+text" -> JsonBodies(sh, level, {"exact", "decorated"}) \cup TextBodies(level, {"exact", "decorated"})
+    \* (level 1: the decorated Content-Type with one JSON instance and one text, the exact one with all)
+    [] c = "json+text" -> IF level <= 1
+                          THEN JsonBodies(sh, level, {"exact"}) \cup TextBodies(level, {"exact"})
+                               \cup {BodyRec("json", "decorated", CHOOSE t \in JsonInstances(sh, level) : t.t # "null", <<>>, "whole"),
+                                     BodyRec("text", "decorated", JStr("hello world"), <<>>, "whole")}
+                          ELSE JsonBodies(sh, level, {"exact", "decorated"}) \cup TextBodies(level, {"exact", "decorated"})
 
 \* (content kind, shape) cells of a served response
 Cells == {[c |-> "none", sh |-> "-"], [c |-> "octet", sh |-> "-"], [c |-> "sse", sh |-> "object"], [c |-> "ndjson", sh |-> "object"]}
            \cup [c : {"json", "json+text"}, sh : JsonShapes] \cup [c : {"text"}, sh : TextShapes]
+           \cup [c : {"json"}, sh : MoreJsonShapes] \cup {[c |-> "json+text", sh |-> "nullobj"]}
 
 \* ---------------------------------------------------------------------------------------------
 \* declarations
 
-Statuses == {"200", "201", "202", "204", "206", "default"}
-Code(st) == CASE st = "200" -> 200 [] st = "201" -> 201 [] st = "202" -> 202 [] st = "204" -> 204 [] st = "206" -> 206 [] OTHER -> 0
+Statuses == {"200", "201", "202", "204", "206", "207", "default"}
+Code(st) == CASE st = "200" -> 200 [] st = "201" -> 201 [] st = "202" -> 202 [] st = "204" -> 204 [] st = "206" -> 206 [] st = "207" -> 207 [] OTHER -> 0
 \* the status the server answers with when the served response is the `default` one (a 2xx status no key names)
 DefaultServed == 203
 ServedCode(st) == IF st = "default" THEN DefaultServed ELSE Code(st)
@@ -185,21 +205,30 @@ Filler(st) == IF st = "204" THEN [c |-> "none", sh |-> "-"] ELSE [c |-> "json", 
 
 \* the primary (signature-defining) success response by the documented priority: the first of `order` that is declared,
 \* then any other 2xx key (206 is the only one here), then default
-PrimaryBy(order, d) ==
+\* (ds = the keys of the `responses` map in DOCUMENT order: "any other 2xx" means the FIRST one declared)
+PrimaryBy(order, d, ds) ==
   LET hits == SelectSeq(order, LAMBDA st : st \in DOMAIN d)
+      twos == SelectSeq(ds, LAMBDA st : st # "default")
   IN  IF Len(hits) > 0 THEN hits[1]
-      ELSE IF "206" \in DOMAIN d THEN "206"
+      ELSE IF Len(twos) > 0 THEN twos[1]
       ELSE IF "default" \in DOMAIN d THEN "default"
       ELSE CHOOSE st \in DOMAIN d : TRUE
 DocOrder == <<"200", "201", "202", "204">>
+
+\* the keys of a declaration by ascending / descending status, `default` last
+KeySeq(keys, desc) ==
+  LET nums == SortSeq(SetToSeq(keys \ {"default"}), LAMBDA a, b : IF desc THEN Code(a) > Code(b) ELSE Code(a) < Code(b))
+  IN  nums \o (IF "default" \in keys THEN <<"default">> ELSE <<>>)
+\* document order of a scenario's `responses` map (sc.desc: written in descending status order)
+DocSeq(sc) == KeySeq(sc.others \cup {sc.served}, sc.desc)
 
 \* a scenario: the served response + the other declared statuses + sib: the operation's tag (= its emitted endpoint
 \* module) holds a second, ordinary operation (GET returning a JSON model) - or the operation is alone in its module
 Decl(sc) == [st \in sc.others \cup {sc.served} |-> IF st = sc.served THEN sc.cell ELSE Filler(st)]
 
 Scenarios(maxDecl) ==
-  {[served |-> st, cell |-> cell, others |-> o, sib |-> sib] :
-      st \in Statuses, cell \in Cells, o \in UNION {kSubset(n, Statuses) : n \in 0..(maxDecl - 1)}, sib \in BOOLEAN}
+  {[served |-> st, cell |-> cell, others |-> o, sib |-> sib, desc |-> desc] :
+      st \in Statuses, cell \in Cells, o \in UNION {kSubset(n, Statuses) : n \in 0..(maxDecl - 1)}, sib \in BOOLEAN, desc \in BOOLEAN}
 WellFormedScenario(sc) ==
   /\ sc.served \notin sc.others
   /\ sc.served = "204" => sc.cell.c = "none"
@@ -209,7 +238,11 @@ WellFormedScenario(sc) ==
   /\ sc.served = "default" => (sc.cell.c # "none" /\ sc.others = {})
   \* the family fixes the irrelevant dimension: a sibling operation is added where the served response is not handled by
   \* the operation's one ResponseStrategy alone (several content types, or a secondary response)
-  /\ sc.sib => (sc.cell.c = "json+text" \/ (sc.served # "default" /\ sc.served # PrimaryBy(DocOrder, Decl(sc))))
+  /\ sc.sib => (sc.cell.c = "json+text" \/ (sc.served # "default" /\ sc.served # PrimaryBy(DocOrder, Decl(sc), DocSeq(sc))))
+  \* 207 is in the family for the "any other 2xx" rule: only where none of 200/201/202/204 is declared (elsewhere it
+  \* would repeat 206); the order of the map is varied exactly where that rule has a choice (206 and 207 both declared)
+  /\ "207" \in (sc.others \cup {sc.served}) => (sc.others \cup {sc.served}) \cap {"200", "201", "202", "204"} = {}
+  /\ sc.desc => {"206", "207"} \subseteq (sc.others \cup {sc.served})
 
 \* ---------------------------------------------------------------------------------------------
 \* reference meaning (what the property promises) - independent of any selection logic
@@ -224,8 +257,9 @@ ExpectedReply(b) ==
 
 \* top-level python kinds a conforming value of a declared JSON shape may have
 ShapeKinds(sh) ==
-  CASE sh \in {"object", "union", "other"} -> {"model"}
-    [] sh \in {"array", "arralias"}       -> {"list"}
+  CASE sh \in {"object", "union", "other", "nullobj"} -> {"model"}
+    [] sh \in {"array", "arralias", "nullarr"}       -> {"list"}
+    [] sh = "bool"                        -> {"bool"}
     [] sh \in {"primalias", "str"}        -> {"str"}
     [] sh = "map"                         -> {"model", "dict"}
     [] sh = "prim"                        -> {"int"}
@@ -272,7 +306,7 @@ Failures(ctx, b, ann, o) ==
   ELSE IF e.mode = "json" THEN
         IF o.kind # "return" THEN {Fail("C05.kind", ctx, b, o, "not_a_value")}
         ELSE (IF Approx(e.tree, o.tree) THEN {} ELSE {Fail("C05.value", ctx, b, o, "")})
-             \cup (IF o.pyclass \notin ShapeKinds(ctx.sh) THEN {Fail("C05.kind", ctx, b, o, "declared")}
+             \cup (IF o.pyclass \notin (IF e.tree.t = "null" THEN {"none"} ELSE ShapeKinds(ctx.sh)) THEN {Fail("C05.kind", ctx, b, o, "declared")}
                    ELSE IF ~Admits(ann, o.pykind) THEN {Fail("C05.kind", ctx, b, o, "annotation")} ELSE {})
   ELSE IF e.mode = "text" THEN
         IF o.kind # "return" \/ o.pykind # "str" \/ o.tree # e.tree THEN {Fail("C05.text", ctx, b, o, "")}
@@ -298,25 +332,28 @@ Holds(ctx, b, ann, o) == Failures(ctx, b, ann, o) = {}
 \* ---------------------------------------------------------------------------------------------
 \* implementation-shaped model
 
-Variants == {"as_is", "fixed", "sig201", "hdl201"}
+Variants == {"as_is", "fixed", "sig201", "hdl201", "sigsorted"}
 
 \* the priority list of the two copies of the primary-response selection
 SigOrder(v) == IF v = "sig201" THEN <<"201", "200", "202", "204">> ELSE DocOrder
 HdlOrder(v) == IF v = "hdl201" THEN <<"201", "200", "202", "204">> ELSE DocOrder
 
-PrimarySig(v, d) == PrimaryBy(SigOrder(v), d)
-PrimaryHdl(v, d) == PrimaryBy(HdlOrder(v), d)
+\* ("sigsorted": the signature copy takes the LOWEST other 2xx instead of the first declared one)
+PrimarySig(v, d, ds) == PrimaryBy(SigOrder(v), d, IF v = "sigsorted" THEN KeySeq(DOMAIN d, FALSE) ELSE ds)
+PrimaryHdl(v, d, ds) == PrimaryBy(HdlOrder(v), d, ds)
 
 \* python type the resolver gives a schema
 TypeOf(sh) == CASE sh = "object" -> "Thing" [] sh = "array" -> "List[Thing]" [] sh = "primalias" -> "Label"
                 [] sh = "arralias" -> "ThingList" [] sh = "union" -> "Pick" [] sh = "map" -> "Bag" [] sh = "prim" -> "int"
-                [] sh = "str" -> "str" [] sh = "other" -> "Other" [] OTHER -> "bytes"
+                [] sh = "str" -> "str" [] sh = "other" -> "Other" [] sh = "bool" -> "bool"
+                [] sh = "nullarr" -> "MaybeThings | None" [] sh = "nullobj" -> "Prefs | None" [] OTHER -> "bytes"
 \* _should_use_cattrs_structure
-UsesCattrs(ty) == ty \in {"Thing", "List[Thing]", "ThingList", "Pick", "Bag", "Other"}
+UsesCattrs(ty) == ty \in {"Thing", "List[Thing]", "ThingList", "Pick", "Bag", "Other", "MaybeThings | None", "Prefs | None"}
 \* kinds a value of that python type has at run time
 TypeKinds(ty) == CASE ty = "Thing" -> {"model:Thing"} [] ty = "Other" -> {"model:Other"} [] ty \in {"List[Thing]", "ThingList"} -> {"list"}
                    [] ty \in {"Label", "str"} -> {"str"} [] ty = "Pick" -> {"model:Cat", "model:Dog"} [] ty = "Bag" -> {"model:Bag"}
-                   [] ty = "int" -> {"int"} [] ty = "bytes" -> {"bytes"} [] OTHER -> {}
+                   [] ty = "int" -> {"int"} [] ty = "bytes" -> {"bytes"} [] ty = "bool" -> {"bool"}
+                   [] ty = "MaybeThings | None" -> {"list", "none"} [] ty = "Prefs | None" -> {"model:Prefs", "none"} [] OTHER -> {}
 
 \* the ResponseStrategy of a response r = [c, sh]:
 \*   [k : "none" | "aiter_bytes" | "aiter_json" | "switch" | "type", ty : python type (k = "type" / json branch of "switch" / item type)]
@@ -346,8 +383,8 @@ FixedStrategy(r) ==
     [] OTHER             -> Strategy(r)
 FixedAnn(s) == IF s.k = "text" THEN {"str"} ELSE IF s.k = "aiter_records" THEN {"aiter:" \o k : k \in TypeKinds(s.ty)} ELSE StrategyAnn(s)
 
-Ann(v, d) == IF v = "fixed" THEN UNION {FixedAnn(FixedStrategy(d[st])) : st \in DOMAIN d}
-             ELSE StrategyAnn(Strategy(d[PrimarySig(v, d)]))
+Ann(v, d, ds) == IF v = "fixed" THEN UNION {FixedAnn(FixedStrategy(d[st])) : st \in DOMAIN d}
+                 ELSE StrategyAnn(Strategy(d[PrimarySig(v, d, ds)]))
 
 \* ---- run-time pieces of the emitted code
 
@@ -361,7 +398,7 @@ ParsedJson(b) == IF b.ct = "json" THEN b.tree
                  ELSE IF b.tree.s = "7" THEN JInt(7) ELSE JObj(<<KV("id", JInt(1))>>)
 
 ModelFields(m) == CASE m = "Thing" -> <<"id", "name", "nums", "tag">> [] m = "Other" -> <<"code", "note">>
-                    [] m = "Cat" -> <<"lives", "meow">> [] m = "Dog" -> <<"bark", "tricks">>
+                    [] m = "Cat" -> <<"lives", "meow">> [] m = "Dog" -> <<"bark", "tricks">> [] m = "Prefs" -> <<"compact", "theme">>
 \* structure_from_dict(json, Model): required members must be there, an absent optional scalar becomes None,
 \* an absent optional list becomes []; unknown members are dropped
 StructModel(m, j) ==
@@ -383,13 +420,24 @@ Structure(ty, j) ==
     [] ty = "Pick"  -> IF j.t = "obj" /\ "meow" \in Keys(j) THEN StructModel("Cat", j)
                        ELSE IF j.t = "obj" /\ "bark" \in Keys(j) THEN StructModel("Dog", j) ELSE Raised("ValueError")
     [] ty = "Bag"   -> IF j.t = "obj" THEN Returned("model:Bag", j) ELSE Raised("ValueError")
+    \* `structure_from_dict(response.json(), T) if response.json() is not None else None`
+    [] ty = "MaybeThings | None" -> IF j.t = "null" THEN Returned("none", JNull) ELSE StructList(j)
+    [] ty = "Prefs | None"       -> IF j.t = "null" THEN Returned("none", JNull) ELSE StructModel("Prefs", j)
 
 \* `return structure_from_dict(response.json(), T)` / `return cast(T, response.json())`;  imp = the endpoint module
 \* imports structure_from_dict (the NAME is looked up before response.json() is evaluated)
 JsonError(b) == IF b.ct = "octet" /\ \E i \in 1..Len(b.items) : b.items[i].s = "/2Nk" THEN "UnicodeDecodeError"   \* 0xFF: not UTF-8
                 ELSE "JSONDecodeError"
+\* nullable named schemas: `structure_from_dict(response.json(), T) if response.json() is not None else None` - the
+\* condition (body parsed, compared with None) is evaluated before the name structure_from_dict is looked up
+IsNullable(ty) == ty \in {"MaybeThings | None", "Prefs | None"}
 FromJson(imp, ty, b) ==
-  IF UsesCattrs(ty) /\ ~imp THEN Raised("NameError")
+  IF IsNullable(ty) THEN
+      IF ~ParsesAsJson(b) THEN Raised(JsonError(b))
+      ELSE IF ParsedJson(b).t = "null" THEN Returned("none", JNull)
+      ELSE IF ~imp THEN Raised("NameError")
+      ELSE Structure(ty, ParsedJson(b))
+  ELSE IF UsesCattrs(ty) /\ ~imp THEN Raised("NameError")
   ELSE IF ~ParsesAsJson(b) THEN Raised(JsonError(b))
   ELSE IF UsesCattrs(ty) THEN Structure(ty, ParsedJson(b))
   ELSE Returned(RawKind(ParsedJson(b)), ParsedJson(b))
@@ -409,7 +457,7 @@ IterRecords(ty, b) ==
 
 \* _write_strategy_based_return for strategy s on body b
 StrategyReturn(imp, s, b) ==
-  CASE s.k = "none"        -> Returned("none", NoTree)
+  CASE s.k = "none"        -> Returned("none", JNull)
     [] s.k = "aiter_bytes" -> IterBytes(b)
     [] s.k = "aiter_json"  -> IterSseJson(b)
     [] s.k = "switch"      -> IF b.ct = "json" THEN FromJson(imp, s.ty, b) ELSE Returned("str", ServedText(b))
@@ -421,43 +469,43 @@ StrategyReturn(imp, s, b) ==
 \* _write_strategy_based_return (:567-572) - not by the Content-Type switch (:695-699) nor by the secondary-2xx branch
 \* (:476-479).  Every scenario is its own endpoint module (own tag): nothing else brings the name in, unless the module
 \* has the sibling operation (a plain JSON-model GET, which takes the cattrs branch).
-CattrsImported(v, d, sib) == v = "fixed" \/ sib \/ LET s == Strategy(d[PrimarySig(v, d)]) IN s.k = "type" /\ UsesCattrs(s.ty)
+CattrsImported(v, d, ds, sib) == v = "fixed" \/ sib \/ LET s == Strategy(d[PrimarySig(v, d, ds)]) IN s.k = "type" /\ UsesCattrs(s.ty)
 
 \* a streaming primary response makes the method an async generator (`yield`); every further numeric 2xx key adds a
 \* `return <expr>` (`return None` included) to the same function: SyntaxError, the whole client package cannot be imported
 IsStreaming(s) == s.k \in {"aiter_bytes", "aiter_json"}
-Unimportable(v, d) ==
+Unimportable(v, d, ds) ==
   /\ v # "fixed"
-  /\ IsStreaming(Strategy(d[PrimarySig(v, d)]))
-  /\ \E st \in DOMAIN d : st # "default" /\ st # PrimaryHdl(v, d)
+  /\ IsStreaming(Strategy(d[PrimarySig(v, d, ds)]))
+  /\ \E st \in DOMAIN d : st # "default" /\ st # PrimaryHdl(v, d, ds)
 
 \* which `case` of the emitted match statement fires for the served status
-CaseOf(v, d, st) ==
-  LET p == PrimaryHdl(v, d)
+CaseOf(v, d, ds, st) ==
+  LET p == PrimaryHdl(v, d, ds)
   IN  IF st = p /\ p # "default" THEN "primary"
       ELSE IF st # "default" THEN "secondary"
       ELSE "default"
 
 \* other 2xx keys: always response.json(), typed by the response's own (JSON-preferred) schema
 SecondaryReturn(imp, r, b) ==
-  IF r.c = "none" THEN Returned("none", NoTree) ELSE FromJson(imp, TypeOf(r.sh), b)
+  IF r.c = "none" THEN Returned("none", JNull) ELSE FromJson(imp, TypeOf(r.sh), b)
 
 \* `case _:  # Default response` - parsed with the PRIMARY's strategy when the default response has content
-DefaultReturn(v, d, imp, b) ==
-  LET s == Strategy(d[PrimarySig(v, d)])
+DefaultReturn(v, d, ds, imp, b) ==
+  LET s == Strategy(d[PrimarySig(v, d, ds)])
   IN  IF d["default"].c # "none" /\ s.k # "none" THEN StrategyReturn(imp, s, b) ELSE Raised("HTTPError")
 
-ModelOutcome(v, d, sib, st, b) ==
+ModelOutcome(v, d, ds, sib, st, b) ==
   IF v = "fixed" THEN StrategyReturn(TRUE, FixedStrategy(d[st]), b)
-  ELSE IF Unimportable(v, d) THEN Raised("SyntaxError")
-  ELSE LET c == CaseOf(v, d, st)
-           imp == CattrsImported(v, d, sib)
-       IN  IF c = "primary" THEN StrategyReturn(imp, Strategy(d[PrimarySig(v, d)]), b)
+  ELSE IF Unimportable(v, d, ds) THEN Raised("SyntaxError")
+  ELSE LET c == CaseOf(v, d, ds, st)
+           imp == CattrsImported(v, d, ds, sib)
+       IN  IF c = "primary" THEN StrategyReturn(imp, Strategy(d[PrimarySig(v, d, ds)]), b)
            ELSE IF c = "secondary" THEN SecondaryReturn(imp, d[st], b)
-           ELSE DefaultReturn(v, d, imp, b)
+           ELSE DefaultReturn(v, d, ds, imp, b)
 
 \* the caller-side role of the served response (what the DOCUMENT says, by the documented priority)
-RoleOf(d, st) == IF st = "default" THEN "default" ELSE IF st = PrimaryBy(DocOrder, d) THEN "primary" ELSE "secondary"
+RoleOf(d, ds, st) == IF st = "default" THEN "default" ELSE IF st = PrimaryBy(DocOrder, d, ds) THEN "primary" ELSE "secondary"
 
 \* comparable projection of an outcome (model vs. code; differences are DRIFT, never a failure)
 \* (a transport may re-cut binary chunks: binary streams are compared by their octets, other streams by their length)
